@@ -31,6 +31,13 @@ add("C05", "exploration",
     "Oracle = /verif/ref/refchain. The now+2h rule is probed with second-aligned deliveries and judged only when the clock did not tick during the call. Retarget arithmetic beyond the first epoch is covered by the C05 thorough tier only.",
     "DESIGN.md §3 C05")
 
+add("C06", "exploration",
+    "differential runtime monitor: random block trees delivered in random parent-first orders to the real node and to the reference fork-choice/UTXO model; tip + full UTXO dump compared after every delivery",
+    "Held on the delivery histories observed: thousands of random block trees (forks from the tip and from below it, depth up to ~16, equal-work ties, branches invalid only at connect time at random positions with descendants, "
+    "check-invalid blocks, children offered before parents, redeliveries, Idle/HurryUp between deliveries, plain/compressed records, mainnet/testnet rule sets); reference UTXO is recomputed by replay on every reorganisation.",
+    "Oracle = /verif/ref/refchain (most cumulative work = sum 2^256/(target+1), first seen wins ties, invalid-at-connect branches excluded with descendants). All blocks carry the same difficulty, so heavier-but-shorter branches are not exercised.",
+    "DESIGN.md §3 C06")
+
 NOT_BUILT = {}
 
 def main():
